@@ -6,7 +6,13 @@ mod task;
 
 use std::any::Any;
 use std::future::Future;
+#[cfg(not(nexosim_verif))]
 use std::sync::atomic::{AtomicBool, AtomicUsize, Ordering};
+#[cfg(nexosim_verif)]
+use {
+    crate::verif::sync::atomic::AtomicBool,
+    std::sync::atomic::{AtomicUsize, Ordering},
+};
 use std::sync::Arc;
 use std::time::Duration;
 
